@@ -1,4 +1,5 @@
 import HexProofs.Framework.Program
+import HexProofs.Writes.MembersC14
 import HexProofs.Framework.Gen.AllX
 import HexProofs.Framework.Gen.IndexTrees
 import HexProofs.Framework.Gen.ProgramTf
@@ -390,5 +391,62 @@ example : ∃ s, Runs ({ tree := mkTop (.rsi 2 "close") "RSI_2" 4, mgr := { cfg 
       demoProgram with
   | none => rw [hr] at h; cases h
   | some s => exact ⟨s, runs_of_runChecked _ _ _ hr⟩
+
+/-! ### inside a Hexital (HexProofs/Writes/MembersC14.lean) -/
+
+/-- **C14 inside a Hexital** – all 27 classes, every `MgrSpec` (base timeframe, collapsing timeframe, timeframe + fill),
+the whole façade alphabet (`append`, `calculate(name?)`, `purge(name?)`, `recalculate(name?)`,
+`calculate_index(name?, ±i)`, `add_indicator` / `remove_indicator` of other members): after any admissible program
+(`HexRuns`) a final `Hexital.calculate()` leaves the member's manager with the view of ONE batch `calculate()` of the
+standalone indicator over everything received – which returns. -/
+theorem C14_member {N : List String} {members : List (Member F)} {mem : Member F} (hm : MemberHyps N members mem)
+    (k : Kind F) (name : String) (round : Nat) (hk : CoveredTreeX name k) (htree : mem.tree = mkTop k name round)
+    (cfg : MgrCfg) (tfn : Option String) (M : MgrSpec F) (hM : mem.effCfg cfg = M.cfg)
+    (init : List (Candle F)) (ops : List (TwinOp F)) (hops : ∀ op, op ∈ ops → op.OK N mem.tree.name)
+    (hok : M.Ok (init ++ (appendedBy ops).flatten))
+    (H0 H H' : Hexital F) (h0 : Hexital.init cfg tfn init members = .ok H0)
+    (hruns : HexRuns mem.tree.name H0 ops H) (hfin : H.calculate none = .ok H') :
+    ∃ out m', candlesOf (runBatch mem.tree M.cfg (init ++ (appendedBy ops).flatten)) = .ok out ∧
+      H'.memberManager mem.tree.name = some m' ∧ SameView mem.tree.allNames m'.candles out :=
+  member_program_converges hm k name round hk htree cfg tfn M hM init ops hops hok H0 H H' h0 hruns hfin
+
+/-- … against the batch Hexital (same members over everything received, constructed and calculated once) -/
+theorem C14_member_hexital {N : List String} {members : List (Member F)} {mem : Member F}
+    (hm : MemberHyps N members mem)
+    (k : Kind F) (name : String) (round : Nat) (hk : CoveredTreeX name k) (htree : mem.tree = mkTop k name round)
+    (cfg : MgrCfg) (tfn : Option String) (M : MgrSpec F) (hM : mem.effCfg cfg = M.cfg)
+    (init : List (Candle F)) (ops : List (TwinOp F)) (hops : ∀ op, op ∈ ops → op.OK N mem.tree.name)
+    (hok : M.Ok (init ++ (appendedBy ops).flatten))
+    (H0 H H' HB : Hexital F) (h0 : Hexital.init cfg tfn init members = .ok H0)
+    (hruns : HexRuns mem.tree.name H0 ops H) (hfin : H.calculate none = .ok H')
+    (hbatch : runHexSched cfg tfn (init ++ (appendedBy ops).flatten) members [] = .ok HB) :
+    ∃ m' mB, H'.memberManager mem.tree.name = some m' ∧ HB.memberManager mem.tree.name = some mB ∧
+      SameView mem.tree.allNames m'.candles mB.candles :=
+  member_program_converges_hexital hm k name round hk htree cfg tfn M hM init ops hops hok H0 H H' HB h0 hruns hfin
+    hbatch
+
+/-- … the configuration spelled out (Hexital `{timeframe, timeframe_fill}`; the member on its own or the Hexital's
+timeframe; raw stream `RawTf`) -/
+theorem C14_member_tf {N : List String} {members : List (Member F)} {mem : Member F}
+    (hm : MemberHyps N members mem)
+    (k : Kind F) (name : String) (round : Nat) (hk : CoveredTreeX name k) (htree : mem.tree = mkTop k name round)
+    (htfx : Option Int) (fill : Bool) (tfn : Option String)
+    (htf : ∀ t, mem.effTf htfx = some t → 0 < t) (hfill : fill = true → (mem.effTf htfx).isSome = true)
+    (init : List (Candle F)) (ops : List (TwinOp F)) (hops : ∀ op, op ∈ ops → op.OK N mem.tree.name)
+    (hraw : RawTf (init ++ (appendedBy ops).flatten))
+    (H0 H H' : Hexital F) (h0 : Hexital.init { tf := htfx, fill := fill } tfn init members = .ok H0)
+    (hruns : HexRuns mem.tree.name H0 ops H) (hfin : H.calculate none = .ok H') :
+    ∃ out m', candlesOf (runBatch mem.tree { tf := mem.effTf htfx, fill := fill }
+        (init ++ (appendedBy ops).flatten)) = .ok out ∧
+      H'.memberManager mem.tree.name = some m' ∧ SameView mem.tree.allNames m'.candles out :=
+  member_program_converges_cfg hm k name round hk htree htfx fill tfn htf hfill init ops hops hraw H0 H H' h0 hruns
+    hfin
+
+/-- non-vacuity: `SMA_2_T2` among four members on three managers, a 14-step program with every operation -/
+example := @MembersC14Ex.applied
+
+#print axioms C14_member
+#print axioms C14_member_hexital
+#print axioms C14_member_tf
 
 end Hex.C14
